@@ -281,6 +281,12 @@ class Gen:
         if d.kind == "b":
             return [bool(x) for x in self.draw(
                 st.lists(st.booleans(), min_size=n, max_size=n))]
+        if lo is None and hi is None and dtype == "float32" and scale == 0 \
+                and n and self.boolean(1, 6):
+            # thirteen-bit mantissas: a product of two is exact in float64
+            # but not in float32 (a dropped widening cast shows)
+            return [self.choice([4097, -4099, 8191, 2049, 6145, -3073, 5, -3])
+                    for _ in range(n)]
         lo = -9 if lo is None else lo
         hi = 9 if hi is None else hi
         if d.kind == "u":
